@@ -18,6 +18,17 @@ open Util
 open Types
 open ParseModel
 
+(* argv[1] = C09 | C10 | C12: only the clauses of that property are judged (the other classes belong to the
+   other two properties, which run the same streams with their own argument) *)
+let prop = if Array.length Sys.argv > 1 then Sys.argv.(1) else "C09"
+let relevant cls = match prop, cls with
+  | "C09", ("parse_tree" | "render_mismatch") -> true
+  | "C10", ("parse_panic" | "parse_shape" | "parser_accepts_rejected_text") -> true
+  | "C12", "element_pos" -> true
+  | ("C09" | "C10" | "C12"), _ -> false
+  | _, _ -> true
+let specfail cls case impl expected = if relevant cls then Util.specfail cls case impl expected
+
 let pos_of (s : string) : coq_N * coq_N =
   match Stdlib.String.split_on_char ':' s with
   | [l; c] -> (n_of_int (int_of_string l), n_of_int (int_of_string c))
